@@ -303,6 +303,13 @@ impl<F> Slots<F> {
     pub fn live_slots(&self) -> Vec<usize> {
         (1..self.live.len()).filter(|s| self.is_live(*s)).collect()
     }
+    /// Runs the destructors of all live futures; their memory stays quarantined
+    /// (the primitive may still be used afterwards without touching freed memory).
+    pub fn drop_live(&mut self) {
+        for s in self.live_slots() {
+            let _ = self.drop_slot(s);
+        }
+    }
     /// Drops all live futures and frees the quarantined memory.
     pub fn clear(&mut self) {
         for s in self.live_slots() {
